@@ -82,7 +82,13 @@ func (f *flatEnc) enc(t types.Type, v Value) {
 		if ut.Info()&types.IsString != 0 {
 			bs := strBytes(v)
 			if len(bs) > 40 {
-				ex.unsupported("model codec: string longer than 40")
+				// long form (concrete lengths only): 0xfe, then the length in two bytes
+				if len(bs) > 0xffff {
+					ex.unsupported("model codec: string longer than 65535")
+				}
+				f.out = append(f.out, byteConst(0xfe), byteConst(byte(len(bs))), byteConst(byte(len(bs)>>8)))
+				f.out = append(f.out, bs...)
+				return
 			}
 			f.out = append(f.out, byteConst(byte(len(bs))))
 			f.out = append(f.out, bs...)
@@ -219,6 +225,22 @@ func (d *flatDec) dec(t types.Type) Value {
 			n := d.byte()
 			if d.fail != "" {
 				return ""
+			}
+			if n.IsConst() && n.val == 0xfe {
+				// long form; on symbolic input the long form is not part of the model
+				lo, hi := d.byte(), d.byte()
+				if d.fail != "" {
+					return ""
+				}
+				if !lo.IsConst() || !hi.IsConst() {
+					d.fail = "string length out of range"
+					return ""
+				}
+				bs := d.bytes(int(lo.val) | int(hi.val)<<8)
+				if d.fail != "" {
+					return ""
+				}
+				return mkStr(bs)
 			}
 			if !ex.branch(mkCmp(OpULe, n, byteConst(40)), "codec-strlen") {
 				d.fail = "string length out of range"
